@@ -112,6 +112,15 @@ theorem scalePow_eq_scaleFrom (ρ : R) (v : List R) : scalePow ρ v = scaleFrom 
 theorem scalePow_cons (ρ c : R) (cs : List R) : scalePow ρ (c :: cs) = c :: scaleFrom ρ ρ cs := by
   rw [scalePow_eq_scaleFrom]; simp [scaleFrom]
 
+theorem scaleFrom_eq_map (σ ρ : R) (v : List R) : scaleFrom σ ρ v = (scalePow ρ v).map (σ * ·) := by
+  induction v generalizing σ with
+  | nil => rfl
+  | cons c cs ih =>
+    simp only [scaleFrom, scalePow, List.map_cons, List.map_map, ih]
+    congr 1
+    · ring
+    · apply List.map_congr_left; intro x _; simp only [Function.comp]; ring
+
 @[simp] theorem scaleFrom_length (σ ρ : R) (v : List R) : (scaleFrom σ ρ v).length = v.length := by
   induction v generalizing σ with
   | nil => rfl
